@@ -171,7 +171,9 @@ class _RecFileIO(io.FileIO):
         return n
 
     def truncate(self, size=None):
-        self._rec.raw.append((self._hid, -1, b'TRUNCATE', threading.current_thread().name))
+        # a change of the file length is an operation on the file like a write: offset -2, payload = new length
+        n = self.tell() if size is None else int(size)
+        self._rec.raw.append((self._hid, -2, n.to_bytes(8, 'little'), threading.current_thread().name))
         return super().truncate(size)
 
 
@@ -191,6 +193,12 @@ class _RecBufferedWriter(io.BufferedWriter):
         self._rec.pydata.append((self._hid, off, bytes(b)))
         return super().write(b)
 
+    def truncate(self, pos=None):
+        n = self.tell() if pos is None else int(pos)
+        self._rec.pydata.append((self._hid, -2, n.to_bytes(8, 'little')))
+        self._rec.n_truncate += 1
+        return super().truncate(pos)
+
 
 class _RecBufferedRandom(io.BufferedRandom):
     def __init__(self, raw, rec, hid):
@@ -208,6 +216,19 @@ class _RecBufferedRandom(io.BufferedRandom):
         self._rec.pydata.append((self._hid, off, bytes(b)))
         return super().write(b)
 
+    def truncate(self, pos=None):
+        n = self.tell() if pos is None else int(pos)
+        self._rec.pydata.append((self._hid, -2, n.to_bytes(8, 'little')))
+        self._rec.n_truncate += 1
+        return super().truncate(pos)
+
+
+def _set_length(buf, n):
+    if n > len(buf):
+        buf.extend(bytes(n - len(buf)))
+    else:
+        del buf[n:]
+
 
 class RecordingOpen:
     """Shadow `open` for writer modules.  Buffering is unchanged (BufferedWriter over FileIO, default
@@ -221,6 +242,52 @@ class RecordingOpen:
         self.only = only              # restrict recording to this path
         self.before_write = None
         self.on_raw_write = None
+        self.n_truncate = 0
+        self.fds = {}
+        self._patch_os()
+
+    def _patch_os(self):
+        """Length changes made below the file object (os.ftruncate / os.truncate / os.posix_fallocate on a recorded file)
+        are operations of the write sequence too."""
+        rec = self
+        if getattr(os, '_vz_patched', False):
+            os._vz_recorders.append(rec)
+            return
+        os._vz_patched, os._vz_recorders = True, [rec]
+        real_ft, real_tr = os.ftruncate, os.truncate
+        real_fa = getattr(os, 'posix_fallocate', None)
+
+        def note(fd_or_path, n, grow_only=False):
+            for r in os._vz_recorders:
+                hid = r.fds.get(fd_or_path)
+                if hid is None and isinstance(fd_or_path, (str, bytes)):
+                    hid = next((i for i, (p_, _) in enumerate(r.handles) if os.path.abspath(p_) == os.path.abspath(fd_or_path)), None)
+                if hid is not None:
+                    if grow_only:
+                        try:
+                            cur = os.fstat(fd_or_path).st_size
+                        except OSError:
+                            cur = 0
+                        if n <= cur:
+                            return
+                    ev = (hid, -2, int(n).to_bytes(8, 'little'))
+                    r.raw.append(ev + (threading.current_thread().name,))
+                    r.pydata.append(ev)
+                    r.n_truncate += 1
+
+        def ftruncate(fd, n):
+            note(fd, n)
+            return real_ft(fd, n)
+
+        def truncate(path, n):
+            note(path, n)
+            return real_tr(path, n)
+        os.ftruncate, os.truncate = ftruncate, truncate
+        if real_fa is not None:
+            def posix_fallocate(fd, offset, length):
+                note(fd, offset + length, grow_only=True)
+                return real_fa(fd, offset, length)
+            os.posix_fallocate = posix_fallocate
 
     def __call__(self, path, mode='r', *a, **k):
         writing = any(c in mode for c in 'wa+')
@@ -230,6 +297,7 @@ class RecordingOpen:
         fmode = mode.replace('b', '')
         raw = _RecFileIO(path, fmode, self, hid)
         self.handles.append((path, mode))
+        self.fds[raw.fileno()] = hid
         if '+' in mode:
             return _RecBufferedRandom(raw, self, hid)
         return _RecBufferedWriter(raw, self, hid)
@@ -238,6 +306,8 @@ class RecordingOpen:
         """File content if the first n_py Python-level writes had each reached the file atomically."""
         buf = bytearray()
         for i, (hid, off, data) in enumerate(self.pydata[:n_py]):
+            if off == -2:
+                _set_length(buf, int.from_bytes(data, 'little'))
             if off < 0:
                 continue
             if i == n_py - 1 and cut is not None:
@@ -251,6 +321,8 @@ class RecordingOpen:
         """File content after the first n_raw raw writes (the last one cut to `cut` bytes)."""
         buf = bytearray()
         for i, (hid, off, data, _) in enumerate(self.raw[:n_raw]):
+            if off == -2:
+                _set_length(buf, int.from_bytes(data, 'little'))
             if off < 0:
                 continue
             if i == n_raw - 1 and cut is not None:
